@@ -210,7 +210,7 @@ func xHash(id int) common.Uint256 {
 	return mkTx("x-unknown", id, nil, 0, 0).Hash()
 }
 
-func xReset(vol int) {
+func xReset(vol int, memoryFirst bool) {
 	if X != nil && X.db != nil {
 		X.db.Close()
 	}
@@ -225,7 +225,7 @@ func xReset(vol int) {
 	}
 	p := *config.GetDefaultParams()
 	p.TxCacheVolume = uint32(vol)
-	p.MemoryFirst = false
+	p.MemoryFirst = memoryFirst
 	X = &xState{db: db, txIndex: indexers.NewTxIndex(db), cached: indexers.NewUnspentIndex(db, &p), uncached: indexers.NewUnspentIndex(db, &p),
 		blocks: map[int]*types.Block{}, tx: map[int]interfaces.Transaction{}}
 	err = db.Update(func(dbTx database.Tx) error {
@@ -539,7 +539,7 @@ func exec(t []string) string {
 		vol := atoi(t[1])
 		p := *config.GetDefaultParams()
 		p.TxCacheVolume = uint32(vol)
-		p.MemoryFirst = false
+		p.MemoryFirst = t[2] == "1"
 		I = &iState{cache: indexers.NewTxCache(&p), vol: vol, backing: map[int][2]int{}, tx: map[int]interfaces.Transaction{}}
 		return "ok"
 	case "i.connect": // i.connect <height> <id:payload:cacheable,…> <spent ids>
@@ -590,7 +590,7 @@ func exec(t []string) string {
 		r, _ := iFetch(id)
 		return r
 	case "x.reset":
-		xReset(atoi(t[1]))
+		xReset(atoi(t[1]), t[2] == "1")
 		return "ok"
 	case "x.connect":
 		h := atoi(t[1])
@@ -678,8 +678,20 @@ func exec(t []string) string {
 			B.stored[id] = c
 		}
 		return "ok"
-	case "b.get":
+	case "b.get", "b.get2":
 		id := atoi(t[1])
+		if t[0] == "b.get2" {
+			// two concurrent misses for one hash, replayed deterministically: the second lookup runs
+			// at the point where the first one has seen the miss and not yet inserted
+			nested := false
+			blockchain.VerifOnBlockCacheMiss = func(h common.Uint256) {
+				if !nested {
+					nested = true
+					B.store.GetBlock(h)
+				}
+			}
+			defer func() { blockchain.VerifOnBlockCacheMiss = nil }()
+		}
 		if c, ok := B.stored[id]; ok {
 			lastExpect = fmt.Sprintf("ok %d %d", id, c)
 		} else {
@@ -772,12 +784,21 @@ func oracle(t []string, out string) *hx.Violation {
 		if t[0] == "i.trim" && atoi(field(out, "len")) > I.vol+indexers.TrimmingInterval {
 			return bad("txcache-over-limit", "after trim "+field(out, "len")+" entries")
 		}
-	case "b.get":
+	case "b.get", "b.get2":
 		if answer(out) != lastExpect {
 			return bad("blockcache-stale", "GetBlock answers "+answer(out)+" but the store has "+lastExpect)
 		}
 		if len(csv(field(out, "fifo"))) > 2 || len(csv(field(out, "keys"))) > 2 {
 			return bad("blockcache-over-limit", out)
+		}
+		queued := map[string]bool{}
+		for _, x := range csv(field(out, "fifo")) {
+			queued[x] = true
+		}
+		for _, k := range csv(field(out, "keys")) {
+			if !queued[k] {
+				return bad("blockcache-pinned", "block "+k+" is cached but no longer queued for eviction: "+out)
+			}
 		}
 	case "s.write":
 		if field(out, "sent") != t[2] {
